@@ -64,3 +64,6 @@ proof fn lemma_churn_invariant(s: ChurnSt, t: ChurnSt, m: int, size: usize, b0: 
         lemma_churn_growth_step(mask, items, m, t.buckets as usize, size);
     }
 }
+
+// vacuity canary (MUST fail): the accounting hypothesis of unit grow is satisfiable with a loaded table
+proof fn canary_grow_counts(t: &RawTableInner) requires t.counts_ok(), t.items > 10, t.growth_left > 3, ensures false {}
